@@ -585,3 +585,42 @@ pub fn falsey_map(entries: usize) {
     std::mem::forget(o);
     vcover!(true, "end reached");
 }
+
+/// C09: "strings and chars compare lexicographically". Relational operators (as compiled: `>` and
+/// `>=`, `<`/`<=` with swapped operands) and `==` on two chars (any code points) and on two strings
+/// of 0..=2 symbolic ASCII bytes, against code-point order / bytewise lexicographic order.
+pub fn relational_text(k1: u8, k2: u8) {
+    let a = key(k1);
+    let b = key(k2);
+    let (gt, ge, lt, le, eq) = (&a > &b, &a >= &b, &b > &a, &b >= &a, a == b);
+    let ord: i8 = match (&a, &b) {
+        (Object::Char(x), Object::Char(y)) => {
+            let (x, y) = (*x as u32, *y as u32);
+            if x < y { -1 } else if x > y { 1 } else { 0 }
+        }
+        (Object::Str(x), Object::Str(y)) => {
+            let (p, q) = (x.as_bytes(), y.as_bytes());
+            let mut r: i8 = 0;
+            let mut i = 0;
+            while i < 2 {
+                if r == 0 {
+                    if i < p.len() && i < q.len() {
+                        if p[i] < q[i] { r = -1 } else if p[i] > q[i] { r = 1 }
+                    } else if i < q.len() {
+                        r = -1      // a is a proper prefix of b
+                    } else if i < p.len() {
+                        r = 1
+                    }
+                }
+                i += 1;
+            }
+            r
+        }
+        _ => panic!("VERIF: harness kinds"),
+    };
+    assert!(eq == (ord == 0), "VERIF: == on text differs from value equality");
+    assert!(gt == (ord > 0) && ge == (ord >= 0) && lt == (ord < 0) && le == (ord <= 0), "VERIF: text comparison is not lexicographic");
+    std::mem::forget(a);
+    std::mem::forget(b);
+    vcover!(true, "end reached");
+}
